@@ -2,13 +2,13 @@
 # regress_mutants.sh [id-glob]: run every seeded mutant against the quick check of the property
 # it breaks (in a scratch worktree, /repo untouched) and print detected (with the finding keys) /
 # MISSED / no-apply.  Mutants marked "obsolete" in meta.json are skipped.
-cd /verif/seeded || exit 2
+cd "${VERIF_HOME:-/verif}/seeded" || exit 2
 for d in ${1:-*}/; do
   id="${d%/}"
   [ -f "$id/meta.json" ] || continue
   grep -q '"obsolete"' "$id/meta.json" && { echo "$id obsolete (skipped)"; continue; }
   prop="$(sed -n 's/.*"breaks_property": *"\([^"]*\)".*/\1/p' "$id/meta.json")"
-  out="$(ALT=1 /verif/tools/try_mutant.sh "/verif/seeded/$id/patch.diff" "$prop" 2>&1)"
+  out="$(ALT=1 "${VERIF_HOME:-/verif}/tools/try_mutant.sh" "${VERIF_HOME:-/verif}/seeded/$id/patch.diff" "$prop" 2>&1)"
   keys="$(echo "$out" | sed -n 's/^ *key=//p' | sort -u | tr '\n' ' ')"
   if echo "$out" | grep -q "DOES NOT APPLY"; then echo "$id $prop no-apply"
   elif echo "$out" | grep -q "^VIOLATION property=$prop"; then echo "$id $prop detected keys: $keys"
